@@ -183,6 +183,9 @@ static void check_application(MDL & op, const Setup & s, const event & before, c
     }
     if (s.rank >= 0 && sel.size() != 1) sel.clear();
   }
+  // an addressed particle at rest has no direction to lock: that case is probed once, on its own (see main)
+  for (int k : sel)
+    if (norm(mom(before.get_particles()[k])) == 0.0) return;
   bool threw = false;
   std::string what;
   try {
@@ -303,15 +306,34 @@ static void generator_level(const Config & c, const Setup & s, uint64_t phase, S
   event e0, e1;
   std::string key = "gen:" + c.key() + ":" + setup_key(s);
   std::string ctx = c.key() + " with MDL " + s.describe() + " stream " + std::to_string(phase);
+  bool threw1 = false;
+  std::string what1;
   try {
     g0->shoot(r0, e0);
-    g1->shoot(r1, e1);
+    try {
+      g1->shoot(r1, e1);
+    } catch (HorizonHit &) {
+      throw;
+    } catch (std::exception & x) {
+      threw1 = true;
+      what1 = x.what();
+    }
   } catch (HorizonHit &) {
     S.V(key + ":no-termination", ctx + ": shot does not finish");
     return;
   } catch (std::exception & x) {
-    if (!s.err) S.V(key + ":exception", ctx + ": " + x.what());
+    S.V(key + ":exception", ctx + ": the plain generator throws: " + x.what());
     return;
+  }
+  {
+    // is the requested particle in the plain decay? (the error on a missing particle must reach the caller of shoot())
+    int nmatch = 0;
+    for (auto & p : e0.get_particles())
+      if (s.code == 0 || (int)p.get_code() == s.code) nmatch++;
+    bool missing = s.rank < 0 ? nmatch == 0 : nmatch <= s.rank;
+    if (threw1 && !(s.err && missing)) S.V(key + ":exception", ctx + ": " + what1);
+    if (!threw1 && s.err && missing) S.V(key + ":missing-no-error", ctx + ": the decay lacks the requested particle, an error was requested, shoot() returns normally");
+    if (threw1 || (s.err && missing)) { S.gen_runs++; return; }
   }
   S.gen_runs++;
   size_t n = e0.get_particles().size();
@@ -452,6 +474,9 @@ int main(int argc, char ** argv)
   events.push_back({"tiny", make_event({{3, {1e-9, -2e-9, 1.5e-9}}, {1, {0.3, 0.1, 0.2}}})});
   events.push_back({"n-p-e+", make_event({{13, {0.02, 0.01, -0.03}}, {14, {10.0, 5.0, -2.0}}, {2, {0.4, -0.1, 0.2}}})});
   events.push_back({"4e-", make_event({{3, {0.3, 0.1, 0.5}}, {3, {-0.3, 0.4, 0.2}}, {3, {0.1, -0.6, 0.3}}, {3, {-0.2, -0.1, -0.7}}})});
+  // a particle at rest in front of the others (its direction is undefined: only the other invariants apply to it); kept out of the
+  // shared list: used in the direct applications (setups that address it are skipped) and in one dedicated probe
+  const event rest_ev = make_event({{3, {0, 0, 0}}, {1, {0.4, 0.1, 0.2}}, {3, {0.3, -0.2, 0.5}}});
   // ---- axes
   std::vector<V3> axes = {{1, 0, 0}, {-1, 0, 0}, {0, 1, 0}, {0, -1, 0}, {0, 0, 1}, {0, 0, -1}, {1, 1, 1}, {1e-9, 0, 1}, {0.3, -0.8, 0.2}, {-2, 1, -3}, {0, 0, 5}, {-0.5, -0.5, 0.1}, {0.6, 0, -0.8}, {1, 1e-12, -1e-12}};
   std::vector<double> apertures = {0.0, 1e-3, 0.3, M_PI / 2, 2.0, M_PI - 1e-3};
@@ -486,8 +511,29 @@ int main(int argc, char ** argv)
             for (auto & ev : events)
               for (double u0 : grid)
                 for (double u1 : grid) check_application(op, s, ev.second, ev.first, u0, u1, S);
+            for (double u0 : grid)
+              for (double u1 : grid) check_application(op, s, rest_ev, "rest-g-e-", u0, u1, S);
           }
         }
+  // ---- the addressed particle is at rest: whatever the operation does (nothing, or an error), it must not destroy the event
+  for (int rank : {0, -1}) {
+    MDL op;
+    op.set(bxdecay0::ELECTRON, rank, 1.0, 0.0, 0.0, 0.3, false);
+    event ev = rest_ev;
+    Forced none;
+    PortRand r;
+    r.s.forced = &none;
+    r.s.phase = PHASE;
+    r.horizon = 20000;
+    S.applications++;
+    bool threw = false;
+    try { op(r, ev); } catch (std::exception &) { threw = true; }
+    bool finite = true;
+    for (auto & p : ev.get_particles()) finite = finite && std::isfinite(p.get_px()) && std::isfinite(p.get_py()) && std::isfinite(p.get_pz());
+    if (!threw && !finite)
+      S.V(std::string("mdl:addressed-particle-at-rest:rank") + std::to_string(rank), std::string("event [e- at rest, gamma, e-], electrons addressed (rank ") + std::to_string(rank)
+                                                                                         + "): no error is raised and the momenta of the event become NaN");
+  }
   // ---- every label of the label-based entry point selects the species the code-based entry point selects with the
   //      corresponding code (short and long spellings; unknown labels are refused)
   {
@@ -676,6 +722,10 @@ int main(int argc, char ** argv)
           gs.push_back({2, code, rank, axes[ai], 0.2, 0.1, false});
           gs.push_back({4, code, rank, axes[ai], 0.1, 0.2, false});
         }
+    // the error on a missing particle requested: gammas of Cs137 (absent in ~6 % of its decays), the second gamma and the
+    // third electron of other schemes
+    for (int code : {1, 3})
+      for (int rank : {-1, 0, 1, 2}) gs.push_back({0, code, rank, axes[0], 0.3, -1.0, true});
     int nph = full ? 40 : 8;
     for (auto & c : cfgs)
       for (auto & s : gs)
